@@ -107,6 +107,7 @@ struct YieldRec {
     sig: i32,
     tag: Option<u64>,
     seq: u64,
+    tid: usize,
 }
 
 struct World {
@@ -134,6 +135,7 @@ struct World {
     wake_stack: Vec<Vec<(u64, u64)>>,
     post_close_calls: u32,
     post_close_kind: u32,
+    two_scanners: bool,
 }
 
 static mut WORLD: *mut World = std::ptr::null_mut();
@@ -244,8 +246,11 @@ fn record_yield<O: Out>(o: &O) {
                 // per-signal delivery order: no earlier-yielded record of the same signal may
                 // belong to a delivery that began after this one ended
                 let end = x.deliveries[di].end.unwrap_or(u64::MAX);
+                let me = sim::tid();
                 for y in x.yields.iter() {
-                    if y.sig == sig {
+                    // (order is a per-consumer notion: with two threads draining at once only the
+                    // order in which each of them obtained its records is observable)
+                    if y.sig == sig && y.tid == me {
                         if let Some(t2) = y.tag {
                             if let Some(d2) = x.deliveries.iter().find(|d| d.tag == t2) {
                                 if d2.begin > end {
@@ -265,7 +270,7 @@ fn record_yield<O: Out>(o: &O) {
     } else if x.exf == 2 {
         sim::count(E_ITER_RECORDS, 1);
     }
-    x.yields.push(YieldRec { sig, tag: o.tag(), seq });
+    x.yields.push(YieldRec { sig, tag: o.tag(), seq, tid: sim::tid() });
 }
 
 // ---------------------------------------------------------------------------------------------
@@ -370,10 +375,37 @@ fn check_sticky(h: &Handle, who: &str) {
 fn consume_signals<E>(mode: Mode, mut s: SignalsInfo<E>)
 where
     E: Exfiltrator,
-    E::Output: Out,
+    E::Output: Out + Send + 'static,
 {
     let h = s.handle();
     match mode {
+        Mode::Wait if w().two_scanners => loop {
+            // two batches of the same instance drained on two threads at once (a `Pending` is an
+            // owned, Send value): still no delivery may come out twice
+            call_begin();
+            let b1 = s.wait();
+            if sim::nthreads() < sim::MAX_THREADS {
+                let b2 = s.pending();
+                let t = sim::spawn("scanner", move || {
+                    for o in b2 {
+                        record_yield(&o);
+                    }
+                });
+                for o in b1 {
+                    record_yield(&o);
+                }
+                sim::join(t);
+            } else {
+                for o in b1 {
+                    record_yield(&o);
+                }
+            }
+            call_end();
+            check_sticky(&h, "the consumer's handle");
+            if s.is_closed() {
+                break;
+            }
+        },
         Mode::Wait => loop {
             call_begin();
             let batch: Vec<E::Output> = s.wait().collect();
@@ -903,6 +935,7 @@ pub fn run(spec: &RunSpec) -> ! {
         wake_stack: (0..sim::MAX_THREADS).map(|_| Vec::with_capacity(8)).collect(),
         post_close_calls: 0,
         post_close_kind: 0,
+        two_scanners: false,
     });
     unsafe { WORLD = Box::into_raw(world) };
     let sh = sighook_shim::shm::get();
@@ -922,6 +955,7 @@ pub fn run(spec: &RunSpec) -> ! {
         let x = w();
         x.post_close_calls = sim::work(4);
         x.post_close_kind = sim::work(3);
+        x.two_scanners = prop == "C10" && sim::work(3) == 0;
     }
     let mode = if prop == "C11" && sim::work(2) == 0 { Mode::Poll } else { mode };
     let mode = if adapter_tokio { Mode::Tokio } else { mode };
@@ -948,7 +982,7 @@ pub fn run(spec: &RunSpec) -> ! {
     let burst = prop == "C10" && sim::work(2) == 0;
     let mut dels: Vec<Vec<i32>> = Vec::new();
     for _ in 0..ndel {
-        let n = if burst { 5 + sim::work(5) as usize } else { 1 + sim::work(4) as usize };
+        let n = if burst { 5 + sim::work(5) as usize } else { 1 + sim::work(if spec.tier == Tier::Thorough { 7 } else { 4 }) as usize };
         let bs = all[sim::work(all.len() as u32) as usize];
         dels.push((0..n).map(|_| if burst && sim::work(4) != 0 { bs } else { all[sim::work(all.len() as u32) as usize] }).collect());
     }
